@@ -201,6 +201,7 @@ type LState struct {
 	mainLoop     func(*LState, *callFrame)
 	ctx          context.Context
 	ctxCancelFn  context.CancelFunc
+	ctxParent    context.Context // what ctx was derived from in NewThread (nil for a context attached by SetContext)
 }
 
 func (ls *LState) String() string   { return fmt.Sprintf("thread: %p", ls) }
